@@ -4,7 +4,7 @@ sys.path.insert(0, os.path.dirname(os.path.dirname(os.path.abspath(__file__))))
 import ast
 import z3
 from pyvc import xreal as xr
-from pyvc.numexec import Num, Bool, Unsupported
+from pyvc.numexec import Num, Bool, Unsupported, ANALYSIS
 from pyvc.heap import (HeapExec, HPath, LoopSpec, Contract, Ref, NONE, XR, Act, cls_of, SeqRef, SeqAct, x2xr, xr2x, RefV, SeqV, ActV, canon, strc, str_distinct)
 from pyvc.hlib import init_heap, emit, frame_goal
 from pyvc.solve import Obl, static, undecided
@@ -187,7 +187,7 @@ def build(run):
                   ("rule.Antecedent.load", lambda r: __import__("props.C16", fromlist=["x"]).verify_antecedent_load(r, RP=rp))):
         try:
             f(run)
-        except Unsupported as ex_:
+        except ANALYSIS as ex_:
             run.add(undecided(f"{fq}/subset", f"outside the verified subset: {ex_}", fn=fq, meta={"replay": rp}))
         except NotFound as ex_:
             run.add(static(f"{fq}/exists", False, f"function under contract not found: {ex_}", fn=fq))
@@ -196,7 +196,7 @@ def build(run):
     from props import shunting
     try:
         shunting.verify_infix_order(run, rp)
-    except Unsupported as ex_:
+    except ANALYSIS as ex_:
         run.add(undecided("term.Function.infix_to_postfix/order/subset", f"outside the verified subset: {ex_}", fn="term.Function.infix_to_postfix", meta={"replay": rp}))
     except NotFound as ex_:
         run.add(static("term.Function.infix_to_postfix/order/exists", False, f"function under contract not found: {ex_}", fn="term.Function.infix_to_postfix"))
